@@ -32,3 +32,4 @@ def run(ctx, R):
     genreset.rule_gen_reset(ctx, R, 'a64')
     a64hsem.rule_hsem(ctx, R)
     a64patch.rule_patchlen(ctx, R)
+    a64hsem.rule_ss_hsem(ctx, R)
